@@ -257,6 +257,20 @@ def bounded(pb, interp, rng, tier):
                         break
             except Exception as e:
                 fail("_get_index_and_dt", "subset-order.raises", f"entries {what}", f"{type(e).__name__}: {str(e)[:80]}")
+        # an array of times in no particular order, first and last in the same entry
+        ev += 1
+        distinct.add("unsorted-array")
+        try:
+            tA = Time(two[0]["tmid"], format="mjd", precision=9)
+            tB = Time(two[1]["tmid"], format="mjd", precision=9)
+            ts = Time([(tA + 3 * u.min).mjd, (tB + 2 * u.min).mjd, (tB - 4 * u.min).mjd, (tA - 5 * u.min).mjd], format="mjd", precision=9)
+            pa = p(ts)
+            for j in range(4):
+                if abs(exact_phase(pa[j]) - exact_phase(p(ts[j]))) > Fraction(1, 10 ** 8):
+                    fail("__call__", "array==scalar.unsorted-times", "times ordered [A, B, B, A]", f"element {j} differs from the scalar prediction")
+                    break
+        except Exception as e:
+            fail("__call__", "array.unsorted-times.raises", "times ordered [A, B, B, A]", f"{type(e).__name__}: {str(e)[:80]}")
         # the empty subset of entries: no validity interval, every time is outside
         ev += 1
         distinct.add("empty-subset")
